@@ -58,5 +58,18 @@ def custom(run, tier):
                hist.get("coal:warning-logged", 0) > 0, str(hist))
     run.oblige("e2e: no goroutine of the rig or of the library outlives the last Close", hist.get("goroutines-left", 0) == 0,
                "\n".join(summary.get("notes") or []))
+    run.trusted.append("e2e rig harness/cmd/c05e2e: scripted raw-frame HSMS peer (and an idle SECS-I line) over net.Pipe through the public "
+                       "WithDialer/WithListener options, one mutex-sequenced recorder, Go-side log monitor (rig.go: monitor); no model driver in this pass")
+    run.assumptions.append("e2e: State() is sampled (after API calls, inside handlers, while polling), not traced: the edge set of State() is the theorem's; "
+                           "the e2e monitor checks sample values, the notification chain, the closed interval after Close, quiescence, T7 and timer lower bounds")
+    run.assumptions.append("e2e: a NotConnected->Selected notification (the select commit overtook the supervisor's TCP-up step; always on SECS-I) is counted, "
+                           "not failed: the property and the proved monitor (mon_step Delivered) constrain the chain of notifications, not their edge set")
     run.coverage["e2e_scenarios"] = total
     run.coverage["e2e_classes"] = {k[6:]: v for k, v in hist.items() if k.startswith("class:")}
+
+
+MANIFEST = {
+    "text": "Coq theorems over ALL interleavings of the supervisor's atomic steps (three CAS commits, injected disconnect/T7/close, the supervisor's step split at its state load so commits land between read and write, notifier deliveries): every change of State() is a legal E37 edge, a T7 expiry never leaves Selected, emitted/delivered notifications are chained (modulo reported coalescing) and never self-transitions, nothing changes after the close latch, quiescent => last reported = State(), drained => last delivered = last reported. The never-replayed clause is refuted by a vm_compute witness (known finding) with the positive no-lag lemma beside it. The transition table is regenerated from the source and bridged; the real supervisor is driven goroutine-free through random/boundary schedules and must equal the extracted model after every action.",
+    "note": 'Trusted: Coq kernel, translator, extraction, hook driver. Connection-level Open/Close/reconnect histories on both transports are observed e2e, not proved. Atomicity granularity as stated in the evidence assumptions.',
+    "technique": 'Rocq/Coq proof (inductive invariant over an LTS) + translator bridge + extracted-model differential on the real supervisor',
+}
